@@ -694,6 +694,19 @@ fn run_reverb(tier: Tier, sr: u32, feedback: f64, ctx: &mut Ctx) {
 						if mix == 1.0 && width == 0.0 && y.iter().any(|s| (s[0] - s[1]).abs() > 1e-6) {
 							ctx.fail("reverb: stereo_width 0 is not fully mono (left != right)", format!("{} input={}", detail, SIGNALS[si]));
 						}
+						// the same 2^-12 times quieter: the network is linear, the reference scales exactly (tolerance relative to the quiet input)
+						if si == 2 {
+							let xq: Vec<S2> = x.iter().map(|s| [s[0] / 4096.0, s[1] / 4096.0]).collect();
+							let yq = mk().run(&xq);
+							note(ctx, &xq, &yq);
+							if let Some(df) = differs(&yq, &ref_reverb(&xq, sr, feedback as f32, damping as f32, width as f32, mix), &xq) {
+								ctx.fail(
+									"reverb: output differs from the Freeverb network for a quiet input (-72 dB re the loud one), sample by sample",
+									format!("{} input={} / 4096, {} frames; {}", detail, SIGNALS[si], n, df),
+								);
+								return;
+							}
+						}
 						if let Some(df) = differs(&y, &ref_reverb(&x, sr, feedback as f32, damping as f32, width as f32, mix), &x) {
 							let which = if width == 1.0 { "stereo_width=1" } else { "stereo_width<1" };
 							ctx.fail(
@@ -968,6 +981,46 @@ fn run_gain(tier: Tier, ctx: &mut Ctx) {
 		});
 		if let Err(p) = r {
 			ctx.fail(format!("panic: {} :: volume control", p), detail);
+		}
+	}
+	// a fade: the handle's set_volume with a linear tween moves the gain linearly in decibels, chunk by chunk, frame by frame
+	for &(from, to) in &[(-24.0f32, 0.0f32), (0.0, -24.0), (-12.0, 6.0), (6.0, 0.0)] {
+		for &ms in &[10u64, 3, 40] {
+			ctx.evals += 1;
+			let detail = format!("VolumeControlBuilder({} dB), set_volume({} dB, linear tween of {} ms) before the first block; 48000 Hz, blocks of {} frames, constant input 0.5", from, to, ms, IBS);
+			let r = catch(|| {
+				let (mut e, mut h) = VolumeControlBuilder::new(Decibels(from)).build();
+				e.init(48000, IBS);
+				let info = MockInfoBuilder::new().build();
+				let dt = 1.0 / 48000.0;
+				h.set_volume(Decibels(to), kira::Tween { start_time: kira::StartTime::Immediate, duration: Duration::from_millis(ms), easing: kira::Easing::Linear });
+				let dur = ms as f64 / 1000.0;
+				let nblocks = (dur * 48000.0 / IBS as f64).ceil() as usize + 3;
+				let (mut prev_db, mut t) = (from as f64, 0.0f64);
+				for b in 0..nblocks {
+					let mut buf = [Frame::new(0.5, 0.5); IBS];
+					e.on_start_processing();
+					e.process(&mut buf, dt, &info);
+					t += IBS as f64 * dt;
+					let cur_db = from as f64 + (to as f64 - from as f64) * (t / dur).min(1.0);
+					for (i, f) in buf.iter().enumerate() {
+						let db = prev_db + (cur_db - prev_db) * (i + 1) as f64 / IBS as f64;
+						let want = 0.5 * 10f64.powf(db / 20.0);
+						if (f.left as f64 - want).abs() > 2e-5 * want + 1e-7 {
+							ctx.fail(
+								"volume control: a fade does not move the gain linearly in decibels from the previous block's value to this block's",
+								format!("{}; block {} frame {}: output {:e}, expected {:e} ({:.3} dB)", detail, b, i, f.left, want, db),
+							);
+							return;
+						}
+					}
+					prev_db = cur_db;
+				}
+				ctx.nontrivial_extra += 1;
+			});
+			if let Err(p) = r {
+				ctx.fail(format!("panic: {} :: volume control fade", p), detail);
+			}
 		}
 	}
 	// equal-power pan law, stated without a formula: constant power, hard ends, unity centre, mirror symmetry, monotone
